@@ -144,7 +144,7 @@ class C18(Prop):
             "[TEMPORARY] TABLESPACE [props]; names plain / \"..\" / [..] / `..`; drawn layout and keyword case; half of "
             "the enum/object types are used by a following table; non-trivial = declaration with >= 2 optional parts "
             "or a referencing table; distinct = SHA-1 of the case")
-    budgets = {"quick": 4000, "thorough": 120000}
+    budgets = {"quick": 10000, "thorough": 120000}
     assumptions = [
         "CREATE DOMAIN is generated with AS and a parenthesised size (form without AS is known finding K13)",
         "backtick-delimited names are not generated in CREATE SCHEMA (known finding K17)",
